@@ -20,7 +20,7 @@ def run(chk, tier, scale=1.0):
         prun.fold(chk, "C03", rs, crash_is_violation=True)
     chk.count("enumerated_order_histories", len(cases))
     n = int((500 if tier == "quick" else 10000) * scale)
-    opts = {"weights": {"timeout": 9, "hurry": 5, "reply": 26, "password": 18, "stray": 8, "unlinked": 5, "dupdata": 5}, "reply_kinds": ["OK", "OKacct", "OKacct", "AGAIN", "MORE", "NO", "junk"]}
+    opts = {"weights": {"timeout": 9, "hurry": 5, "reply": 26, "password": 18, "stray": 8, "unlinked": 5, "dupdata": 5}, "reply_kinds": ["OK", "OKacct", "OKacct", "AGAIN", "MORE", "NO", "junk", "OKspace"]}
     jobs = pcommon.hist_jobs(b, n, chk.seed, PROPS, opts=opts, tag="c03", want_class=False)
     prun.fold(chk, "C03", vcommon.pmap(prun.hist_worker, jobs, chunksize=4), crash_is_violation=True)
     chk.rule = ("the C02 workload (all 120 arrival orders x service tables x reply policies x timeout / hurry-up positions x passwords) plus random multi-client "
